@@ -9,7 +9,7 @@
 //! trusted: listener part: ChainNotifier is instantiated (R5) as Notifier { header_cache, chain_listener: &mut Listener } (the real field is a shared reference to a listener with interior state); the Listener stub carries the ghost field `tip` and the trace preconditions; HeaderCache::{blocks_disconnected, block_connected} external_body (no effect on the listener); Poller::fetch_block returns a block whose hash is the requested header's (ChainPoller validates it); `drain(..).rev()` rewritten into pop() (R6); find_difference_from_header restated as an external_body callee contract in the Notifier impl (it is verified, same text, in the ChainNotifier impl above)
 //! trusted: poller part: `fn f(..) -> impl Future<Output = T> + Send + 'a { async move { B } }` is written `async fn f(..) -> T { B }` (R5, same body); ChainPoller<B, T> is instantiated with a stub block source whose get_best_block / get_header return anything (any source); Header::validate_pow / block_hash are external_body returning the uninterpreted hash_of(header); `.map_err(BlockSourceError::persistent)` gets an explicit closure (R8); Validate::T is spelled out
 //! trusted: R15 (deep slices): init::synchronize_listeners: the test that decides whether a fetched block is handed to a listener and the match that hands it over (listener = stub that records what it is told; `&L` written `&mut` as for ChainNotifier; ValidatedBlock = Box<BlockData> skeleton), the batch size / truncation pair of the fetch loop (with the function-local const MAX_BLOCKS_AT_ONCE of the production configuration), and the test that keeps the longest list of blocks to connect, verbatim as functions; fetching (futures), the header cache and the per-listener disconnection (ChainNotifier, above) are dropped and not claimed here
-//! trusted: block_validation: `impl Validate for BlockData :: fn validate` extracted whole against header / block stubs (proof of work, merkle root and witness commitment uninterpreted; validate_pow returns the header's own hash on success); R5: the associated type Self::T is written ValidatedBlock, R8: the function path given to map_err is a closure over the unit error
+//! trusted: block_validation: `impl Validate for BlockData :: fn validate` extracted whole against header / block stubs (proof of work, merkle root and witness commitment uninterpreted; validate_pow returns the header's own hash on success); R5: the associated type Self::T is written ValidatedBlock, R8: the function path given to map_err is a closure over the unit error; ChainPoller::fetch_block is extracted against a source that may answer anything (R5: the `impl Future` wrapper written `async fn`, the header reduced to its hash)
 //! assume: block sources never report the height u32::MAX (check_builds_on computes previous_header.height + 1 in u32)
 //! assume: the served block tree is consistent: one parent and one height per block hash (parent_of/height_of uninterpreted)
 //! assume: a header the poller stub hands back (poll_chain_tip's tip, look_up_previous_header's parent) carries the true height of its block in the served tree (`wf`): what is PROVED is the link between neighbours - every header a walk steps back from was checked by check_builds_on against the header stepped to, cached or fetched (finding F13) - which anchors the claimed heights where the walk meets a cached header or the chain the listener is on; a source that gives different answers for one hash, or a reported tip that is itself an ancestor of the known tip (DESIGN O16), is not excluded by any check
@@ -503,6 +503,16 @@ impl ChainPoller {
 //@with
     
 //@end
+// a header asked for by hash (start-up: a listener's last block) comes back validated against that hash
+//@extract lightning-block-sync/src/poll.rs :: impl Poll for ChainPoller :: fn get_header
+//@slice R5
+    Box::pin(async move { $body:any })
+//@with
+    async fn get_header(&self, block_hash: &BlockHash, height_hint: Option<u32>) -> BlockSourceResult<ValidatedBlockHeader> { $body }
+//@ret r
+//@ensures P C20 a-header-asked-for-by-hash-is-handed-back-only-with-that-hash-as-its-proof-of-work-hash
+    r is Ok ==> r->Ok_0.block_hash == *block_hash && *block_hash == hash_of(r->Ok_0.inner.header),
+//@end
 // Poll::check_builds_on as ChainPoller implements it (a method the repair of finding F13 added: absent from a tree without the repair, where nothing can call it)
 //@extract? lightning-block-sync/src/poll.rs :: impl Poll for ChainPoller :: fn check_builds_on
 //@ret r
@@ -576,6 +586,27 @@ impl BlockData {
     if !block.check_merkle_root() {
 //@with
     if false {
+//@end
+}
+// the canonical poller asks its source for the block of the header being connected and accepts the answer only through validate
+pub struct HeaderRef { pub block_hash: BlockHash }
+pub struct Source {}
+impl Source { #[verifier::external_body] pub async fn get_block(&self, header_hash: &BlockHash) -> (r: BlockSourceResult<BlockData>) { unimplemented!() } }
+pub struct ChainPoller { pub block_source: Source }
+impl ChainPoller {
+//@extract lightning-block-sync/src/poll.rs :: impl Poll for ChainPoller :: fn fetch_block
+//@slice R5
+    async move { $body:any }
+//@with
+    async fn fetch_block(&self, header: &HeaderRef) -> BlockSourceResult<ValidatedBlock> { $body }
+//@ret r
+//@ensures P C20 the-block-the-poller-hands-back-for-a-header-is-a-validated-block-with-that-headers-hash-whatever-the-source-answered
+    r is Ok ==> r->Ok_0.block_hash == header.block_hash && hash_of(header_of(r->Ok_0.inner)) == header.block_hash
+        && (r->Ok_0.inner matches BlockData::FullBlock(b) ==> merkle_ok(b) && witness_ok(b)),
+//@mutant block_validated_against_no_particular_hash
+    self.block_source.get_block(&header.block_hash).await?.validate(header.block_hash)
+//@with
+    { let b = self.block_source.get_block(&header.block_hash).await?; let h = match &b { BlockData::FullBlock(x) => x.header.block_hash(), BlockData::HeaderOnly(x) => x.block_hash() }; b.validate(h) }
 //@end
 }
 }
